@@ -1,9 +1,14 @@
-"""Iterative solvers, part 3 (amgcl/solver/{fgmres,lgmres,idrs,bicgstabl}.hpp, amgcl/make_solver.hpp):
-operator()(A, P, rhs, x) bodies under the typestate + ghost contracts of prelude/orch_solvers.h (handle API:
-Krylov bases are arrays of vectors of which "elements [0, upto) were written in this call" is tracked; scalar work
-arrays are tracked by subscript-within-allocation and written-in-this-call-before-read).  Inductive: no bound on
-sizes / iterations / restart lengths.  Serves C01 (truthful residual, budget), C15 (workspace enters undefined,
-zero rhs, converged guess, rhs/A never written), C10 (index safety against the constructor's allocation sizes)."""
+"""Iterative solvers, part 3 (amgcl/solver/{fgmres,lgmres,idrs,bicgstabl}.hpp, amgcl/make_solver.hpp, circular_buffer of amgcl/util.hpp):
+operator()(A, P, rhs, x) bodies under the typestate + ghost contracts of prelude/orch_solvers.h (handle API: Krylov bases are arrays of vectors
+of which "elements [0, upto) were written in this call" is tracked; scalar work arrays are tracked by subscript-within-allocation and
+written-in-this-call-before-read).  Inductive: no bound on sizes / iterations / restart lengths.  Serves C01 (truthful residual, budget), C15
+(workspace enters undefined, zero rhs, converged guess, rhs/A never written), C10 (index safety against the constructor's allocation sizes).
+
+Units:  solver_fgmres, solver_lgmres (with the circular_buffer members cut from util.hpp), solver_idrs + solver_idrs_kloop, solver_bicgstabl +
+solver_bicgstabl_bicg + solver_bicgstabl_poly (bodies too large for one CBMC run are split along ONE shared contract text per inner statement:
+enforced on the repository text by one unit, used in its place by the other -- classes ReplaceLoopStmt / ReplaceRegion), make_solver_call_matrix,
+solver_bicgstabl_refresh (the residual-refresh statement), make_solver_call, make_solver_apply, solver_{fgmres,lgmres,idrs,bicgstabl}_overload3.
+CANDIDATE_UNITS (only with VERIF_CANDIDATES=1): solver_bicgstabl_delta -- reports a VIOLATION on the unchanged tree (see the comment there)."""
 from cxc.extract import Cut, Rule, UF, Loop, UFArgs, Cmp
 from cxc.unit import Unit
 from c01_solvers import DROP_IO, SIG4
@@ -122,7 +127,7 @@ FGMRES_MGS = GMRES_MGS.replace('gs.bas.upto[B_v] >= (size_t)j + 2', 'gs.bas.upto
 FGM_A = ['A-M: prm.M >= 1 (with M == 0 the constructor allocates a single basis vector and no z vector, and operator() subscripts v[1], z[0])']
 
 fgmres = Unit(
-    name='solver_fgmres', props=['C01', 'C15', 'C10'],
+    name='solver_fgmres', props=['C01', 'C05', 'C15', 'C10'],
     functions=['solver::fgmres<Backend>::operator()(A, P, rhs, x)'],
     desc='FGMRES(M) solve body: budget; on every exit path the reported residual is the norm of residual(rhs, A, x, v[0]) of the RETURNED x; '
          'x advanced once per restart cycle by lin_comb over the preconditioned basis z (z[i] = P v[i]) with coefficient one on x; '
@@ -138,7 +143,9 @@ fgmres = Unit(
                              Loop(r'for \(unsigned i = j; i --> 0', GMRES_BS1, prefix=True),
                              Loop(r'for \(unsigned k = 0; k < i', GMRES_BS2, prefix=True)])},
     template=FGMRES_T, enforce='f_fgmres', replace=ORCH_H, mode='inductive', obj_bits=12, replay='solvers', timeout=600, solver=KISSAT,
-    cover=True,
+    # cbmc --cover location does finish on this unit (measured once, ~400 s under load: every line of the body reachable) but takes 4x the
+    # verification itself; cover='canary' took as long.  Switched off for the routine run; reachability is also shown by the mutants.
+    cover=False,
     variants=[{}, {'VARIANT_CONVERGED_GUESS': 1, 'CXC_NOCOVER': 1}],
     assumptions=A_HANDLES + FGM_A,
     not_decided=GM_NOT_DECIDED,
@@ -160,6 +167,9 @@ typedef struct lgmres { lgmres_params prm; size_t n, M; vec *r; } lgmres;
 enum { B_vs = 0, B_ws = 1, B_outer_v_data = 2 };
 #define LEFT(self) ((self)->prm.pside == side_left)
 
+/* a data member of this name does not exist in the unchanged code (n_outer is a local of operator() there and shadows this); should the counter become
+ * a member, it holds whatever an earlier call left there */
+unsigned n_outer;
 /* ---- std::vector< shared_ptr<vector> > buf underneath circular_buffer (A-std model) ---- */
 struct ov_state { size_t size, cap, start, bound; } ov;
 struct ws0_state { int b; size_t i; } ws0;      /* the handle stored in ws[0] */
@@ -236,7 +246,7 @@ __CPROVER_requires(gs_sclen[SC_s] == self->M + 1 && gs_sclen[SC_cs] == self->M +
 /* C15: the initial guess already satisfies the tolerance (the test of the code is norm_r < eps) */
 __CPROVER_requires(!EARLY(self) && UF_LESS(g_norm_in1, EPSV(self)))
 #endif
-__CPROVER_assigns(*x_p, *self->r, gs, ov, ws0)
+__CPROVER_assigns(*x_p, *self->r, gs, ov, ws0, n_outer)
 /* C01: iteration budget */
 __CPROVER_ensures(RET.iters <= self->prm.maxiter)
 /* C15: zero right-hand side */
@@ -332,7 +342,7 @@ LG_RULES = [
 ]
 
 lgmres = Unit(
-    name='solver_lgmres', props=['C01', 'C15', 'C10'],
+    name='solver_lgmres', props=['C01', 'C05', 'C15', 'C10'],
     functions=['solver::lgmres<Backend>::operator()(A, P, rhs, x)', 'circular_buffer<T>::{size, push_back, operator[], clear}'],
     desc='LGMRES(M,K) solve body: budget; on every exit path the reported residual is the norm of residual(rhs, A, x) (left: P applied) of the RETURNED x; '
          'x advanced once per restart cycle (x += dx / x += P dx, dx = lin_comb over ws); always_reset: outer_v cleared at entry and every outer vector read was '
@@ -353,6 +363,8 @@ lgmres = Unit(
           'cb_at': Cut(UTIL, r'(?<!const )T& operator\[\]\(size_t i\)\s*(?=\{)', rules=CB_RULES),
           'cb_clear': Cut(UTIL, r'void clear\(\)\s*(?=\{)', rules=CB_RULES)},
     template=LGMRES_T, enforce='f_lgmres', replace=ORCH_H + ['bs_ov_slot'], mode='inductive', obj_bits=12, replay='solvers', timeout=600,
+    # cbmc --cover location: see solver_fgmres (same loop structure, larger body); not run to completion here.  Reachability is shown by the mutants
+    # (obligations inside every loop level and inside the circular_buffer members fail when the code is changed there).
     cover=False,
     variants=[{}, {'VARIANT_CONVERGED_GUESS': 1, 'CXC_NOCOVER': 1}],
     assumptions=A_HANDLES + [
@@ -599,12 +611,6 @@ __CPROVER_assigns(i, gs.sc)
 __CPROVER_loop_invariant(i <= prm.s && SC_KEEP && gs.sc.hi[SC_f] >= i)
 __CPROVER_decreases(prm.s - i)
 """
-ID_K = r"""
-__CPROVER_assigns(k, iter, res_norm, g_thrown, *x_p, *self->r, *self->v, *self->t, *self->x_s, *self->r_s, gs)
-__CPROVER_loop_invariant(k <= prm.s && iter < prm.maxiter && g_thrown == 0 && VEC_KEEP && BAS_KEEP && SC_KEEP && PAIR(iter, res_norm, one))
-__CPROVER_loop_invariant(gs.sc.hi[SC_f] >= prm.s && gs.sc.hi[SC_c] >= k)
-__CPROVER_decreases(prm.s - k)
-"""
 ID_CI = r"""
 __CPROVER_assigns(i, *self->v, gs.sc, gs.ax, gs.bas, gs.dummy)
 __CPROVER_loop_invariant(k <= i && i <= prm.s && k < prm.s && WS_KEEP(self->v, 4) && self->v->defined && BAS_KEEP && SC_KEEP)
@@ -670,7 +676,7 @@ ID_ASSUME = A_HANDLES + [
 ]
 
 idrs = Unit(
-    name='solver_idrs', props=['C01', 'C15', 'C10'],
+    name='solver_idrs', props=['C01', 'C05', 'C15', 'C10'],
     functions=['solver::idrs<Backend>::operator()(A, Prec, rhs, x)', 'solver::idrs<Backend>::omega(t, s)'],
     desc='IDR(s) solve body (smoothing and replacement options included; the G-space loop over k through its contract, see solver_idrs_kloop): budget; reported '
          'residual = norm of the carried residual r (smoothed r_s) in its final state / ||rhs||; x and r (x_s and r_s) advance in lockstep, one update each per step; '
@@ -688,6 +694,7 @@ idrs = Unit(
           'omega': Cut('amgcl/solver/idrs.hpp', r'coef_type omega\(const Vector1 &t, const Vector2 &s\) const\s*(?=\{)',
                        rules=[COMPOUND, Cmp(ID_ATOM, '+')], uf=[UF_DECL, UF_ASSIGN_LV3])},
     template=IDRS_T, enforce='f_idrs', replace=ORCH_H + ['f_kloop'], mode='inductive', obj_bits=12, replay='solvers', timeout=600, solver=KISSAT,
+    # cbmc --cover location finishes (measured once, ~320 s under load): every line of the body reachable.  Switched off for the routine run (2x the verification).
     cover=False,
     variants=[{}, {'VARIANT_CONVERGED_GUESS': 1, 'CXC_NOCOVER': 1}],
     assumptions=ID_ASSUME, not_decided=ID_NOT_DECIDED,
@@ -745,6 +752,7 @@ idrs_k = Unit(
                               Loop(r'for\(unsigned i = k;', ID_MK, nth=1, prefix=True),
                               Loop(r'for\(unsigned i = k\s*\+\s*1;', ID_FU, nth=1, prefix=True)])},
     template=IDRS_K_T, enforce='f_kloop', replace=ORCH_H, mode='inductive', obj_bits=12, timeout=600, solver=KISSAT,
+    # cbmc --cover location finishes (measured once, ~450 s under load): every line of the body reachable.  Switched off for the routine run (too close to the timeout).
     cover=False, loop_contracts=True,
     assumptions=ID_ASSUME, not_decided=ID_NOT_DECIDED,
 )
@@ -803,7 +811,7 @@ typedef struct jret { V rho0, alpha, zeta, rnmax_computed, rnmax_true; size_t it
 __CPROVER_requires(UF_AXIOMS && ALLOC_BL && g_thrown == 0 && iter_in < self->prm.maxiter) \
 __CPROVER_requires(BL_VEC_KEEP && BL_RES && gs.bas.upto[B_R] >= 1 && gs.bas.upto[B_U] >= 1 && gs.norm.calls == 2 && gs.norm.id0 == 1) \
 __CPROVER_assigns(g_thrown, *self->X, *self->T, gs) \
-__CPROVER_ensures(BL_VEC_KEEP && BL_RES && gs.bas.upto[B_R] >= 1 && gs.bas.upto[B_U] >= 1 && gs.norm.calls == 2 && gs.norm.id0 == 1) \
+__CPROVER_ensures(BL_VEC_KEEP && BL_RES && gs.bas.upto[B_R] >= 1 && gs.bas.upto[B_U] >= 1 && gs.norm.calls == 2 && gs.norm.id0 == 1 && gs.clear.calls == OLDV(gs.clear.calls)) \
 /* a full pass: L BiCG steps, every vector of R and U written, the count is left to the caller */ \
 __CPROVER_ensures((!g_thrown && !JRET.early) ==> (gs.bas.upto[B_R] >= LL(self) + 1 && gs.bas.upto[B_U] >= LL(self) + 1 && JRET.iter == iter_in \
                    && self->X->version == OLDV(self->X->version) + LL(self))) \
@@ -894,6 +902,9 @@ BL_MAIN = r"""
 __CPROVER_assigns(iter, rho0, alpha, omega, zeta, rnmax_computed, rnmax_true, g_thrown, *x_p, *self->X, *self->B, *self->T, gs, gy)
 __CPROVER_loop_invariant(iter <= prm.maxiter + ((size_t)L - 1) && g_thrown == 0 && BL_VEC_KEEP && BL_RES && gs.bas.upto[B_R] >= 1 && gs.bas.upto[B_U] >= 1)
 __CPROVER_loop_invariant(gs.norm.calls == 2 && gs.norm.id0 == 1 && zeta == gs.norm.val)
+/* X (and U[0]) are cleared at the start of the solve; the correction accumulated in X is added to x inside the loop only by the residual refresh, and X is cleared again
+ * each time (no part of the correction is applied twice) */
+__CPROVER_loop_invariant(gs.clear.calls == 2 + (x_p->version - g0.xv0) && x_p->version - g0.xv0 <= iter)
 __CPROVER_loop_invariant(iter == 0 ? (zeta == g_norm_in1 && gs.norm.id == 5 && gs.norm.ver == self->B->version && gs.lc.calls == 0 && self->X->version == g0.Xv0 + 1)
                                    : (gs.norm.id == BAS_ID(B_R) && gs.norm.ix == 0))
 /* C01: the norm carried in zeta is the norm of R[0] in its current state (no write to R since it was evaluated) */
@@ -957,11 +968,11 @@ def bl_body_cut(loops):
                      + DROP_IO + SIDE_RULES + [PSPMV_RULE] + basis_rules('R|U') + BL_Y_RULES + BL_TAIL,
                uf=[UF_DECL, UF_ASSIGN_LV3, UF_FOR_ASSIGN], loops=loops)
 
-BL_LOOPS = [Loop(r'for\(; iter', BL_MAIN, prefix=True),
+BL_LOOPS = [Loop(r'for\(;', BL_MAIN, prefix=True),
             Loop(r'for\(int i = 1;', BL_NEG, nth=0, prefix=True, optional=True),
             Loop(r'for\(int i = 1;', BL_NEG, nth=1, prefix=True, optional=True)]
 bicgstabl = Unit(
-    name='solver_bicgstabl', props=['C01', 'C15', 'C10'],
+    name='solver_bicgstabl', props=['C01', 'C05', 'C15', 'C10'],
     functions=['solver::bicgstabl<Backend>::operator()(A, P, rhs, x)'],
     desc='BiCGStab(L) solve body (BiCG loop and polynomial part through their contracts): iterations <= maxiter + L - 1 and no pass starts at or beyond maxiter; reported residual = norm '
          'of B (no pass) / of R[0] taken after the last write to R (its final state) / ||rhs||; carried residual starts as residual(rhs, A, x) (left: preconditioned); x written once, at '
@@ -969,7 +980,10 @@ bicgstabl = Unit(
          'ranges within the L+1 vectors / entries; zero rhs exit; converged guess: zero iterations, x += (P) 0; rhs/A never written',
     cuts={'body': bl_body_cut(BL_LOOPS)},
     template=BL_T.replace('/*@PROLOGUE@*/', ''), enforce='f_bicgstabl', replace=ORCH_H + ['bh_lin_comb2', 'f_bicg', 'f_poly'], mode='inductive', obj_bits=12, replay='solvers',
-    timeout=600, solver=KISSAT, cover=False,
+    timeout=600, solver=KISSAT,
+    # cbmc --cover location finishes (measured once, ~250 s under load): every line of the body reachable except the body of `if (prm.delta > 0)`, which the
+    # precondition of this unit excludes (it is the subject of solver_bicgstabl_delta).  Switched off for the routine run.
+    cover=False,
     variants=[{}, {'VARIANT_CONVERGED_GUESS': 1, 'CXC_NOCOVER': 1}],
     assumptions=BL_ASSUME, not_decided=BL_NOT_DECIDED,
 )
@@ -987,13 +1001,13 @@ BICG_CONTRACT
   hv *const Rt = &Rt_h, *const X = &X_h, *const B = &B_h, *const T = &T_h;
   /* the locals of operator() the statement reads and writes */
   V rho0 = rho0_in, alpha = alpha_in, zeta = nondet_V(), rnmax_computed = rnmax_computed_in, rnmax_true = rnmax_true_in; size_t iter = iter_in;
-  const unsigned long g_Xv = self->X->version;
+  const unsigned long g_Xv = self->X->version, g_clr = gs.clear.calls;
 #define A (*A_p)
 #define P (*P_p)
 /*@CUT:consts@*/
 /*@CUT:jhead@*/
 __CPROVER_assigns(j, rho0, alpha, zeta, rnmax_computed, rnmax_true, g_thrown, *self->X, *self->T, gs)
-__CPROVER_loop_invariant(0 <= j && j <= L && iter == iter_in && g_thrown == 0 && BL_VEC_KEEP && BL_RES && gs.norm.calls == 2 && gs.norm.id0 == 1)
+__CPROVER_loop_invariant(0 <= j && j <= L && iter == iter_in && g_thrown == 0 && BL_VEC_KEEP && BL_RES && gs.norm.calls == 2 && gs.norm.id0 == 1 && gs.clear.calls == g_clr)
 __CPROVER_loop_invariant(gs.bas.upto[B_R] >= (size_t)j + 1 && gs.bas.upto[B_U] >= (size_t)j + 1 && self->X->version == g_Xv + (size_t)j)
 __CPROVER_loop_invariant(j > 0 ==> (ZETA_R0(zeta) && gs.ax.vidy == 4 && gs.ax.vidx == BAS_ID(B_U) && gs.ax.vix == 0 && gs.ax.vb == one && gs.ax.va == alpha))
 __CPROVER_decreases(L - j)
@@ -1035,6 +1049,7 @@ bicgstabl_delta = Unit(
 # not part of UNITS: on the unchanged tree this unit reports a VIOLATION (the candidate defect above); VERIF_CANDIDATES=1 adds it
 import os as _os
 CANDIDATE_UNITS = [bicgstabl_delta]
+WORK_IN_PROGRESS = CANDIDATE_UNITS      # units that do not exit 0 on the current tree (never part of UNITS)
 
 BLHPP = 'amgcl/solver/bicgstabl.hpp'
 bicgstabl_j = Unit(
@@ -1140,6 +1155,62 @@ bicgstabl_p = Unit(
     assumptions=BL_ASSUME + ['A-qr: amgcl::detail::QR::solve touches exactly the rows x cols block of its matrix argument (given strides), `rows` consecutive entries of its '
                              'right-hand side and `cols` entries of its solution argument (qr.hpp:257-310); it is not under contract here'],
     not_decided=BL_NOT_DECIDED,
+)
+
+# ---------------------------------------------------------------------------- BiCGStab(L): the residual refresh ("accurate update") statement
+# if (prm.delta > 0) { ... } of operator(), as a statement under its own contract (loop-free).  This part of the delta > 0 path PASSES on the unchanged tree; what
+# fails there is the interplay with the loop exit (the stale zeta), which is the subject of solver_bicgstabl_delta.
+BL_R_T = BL_COMMON + r"""
+typedef struct rret { V rnmax_computed, rnmax_true; } rret;
+rret f_refresh(const bicgstabl *self, const mat *A_p, const precond *P_p, vec *x_p, V zeta, V zeta0, V rnmax_computed_in, V rnmax_true_in)
+__CPROVER_requires(__CPROVER_is_fresh(self, sizeof(*self)) && __CPROVER_is_fresh(A_p, sizeof(mat)) && __CPROVER_is_fresh(P_p, sizeof(precond)) && __CPROVER_is_fresh(x_p, sizeof(vec)))
+__CPROVER_requires(__CPROVER_is_fresh(self->Rt, sizeof(vec)) && __CPROVER_is_fresh(self->X, sizeof(vec)) && __CPROVER_is_fresh(self->B, sizeof(vec)) && __CPROVER_is_fresh(self->T, sizeof(vec)))
+__CPROVER_requires(UF_AXIOMS && ALLOC_BL && BL_VEC_KEEP && gs.bas.upto[B_R] >= 1 && gs.bas.upto[B_U] >= 1 && gs.clear.calls < MAXITER_BOUND)
+__CPROVER_assigns(*x_p, *self->X, *self->B, *self->T, gs)
+__CPROVER_ensures(BL_VEC_KEEP && gs.bas.upto[B_R] >= 1 && gs.bas.upto[B_U] >= 1)
+/* x is advanced at most once, and only together with a refresh of R[0] */
+__CPROVER_ensures(x_p->version == OLD(x_p->version) || (x_p->version == OLD(x_p->version) + 1 && gs.pspmv.calls == OLD(gs.pspmv.calls) + 1))
+/* refresh: R[0] = B - (P) A X :  preconditioner::spmv(pside, P, A, X, R[0], T), then R[0] = 1 * B + (-1) * R[0] */
+__CPROVER_ensures(gs.pspmv.calls == OLD(gs.pspmv.calls) || (gs.pspmv.calls == OLD(gs.pspmv.calls) + 1 && gs.pspmv.idF == self->X->id && gs.pspmv.idX == BAS_ID(B_R) && gs.pspmv.idT == self->T->id
+                  && (x_p->version == OLD(x_p->version) ==> (gs.ax.idy == BAS_ID(B_R) && gs.ax.iy == 0 && gs.ax.idx == self->B->id && gs.ax.a == MATH_identity(V)
+                                                             && gs.ax.b == UF_NEG(MATH_identity(V))))))
+/* C01: when x is advanced it is by the accumulated correction, x = 1 * X + 1 * x (left) / x = 1 * T + 1 * x with T = P X as left by the refresh (right); X is cleared
+ * afterwards -- no part of the correction is applied twice -- and the refreshed residual becomes the new reference B */
+__CPROVER_ensures(x_p->version == OLD(x_p->version) + 1 ==> (gs.ax.vidy == x_p->id && gs.ax.va == MATH_identity(V) && gs.ax.vb == MATH_identity(V)
+                  && gs.ax.vidx == (LEFT(self) ? self->X->id : self->T->id)
+                  && gs.clear.calls == OLD(gs.clear.calls) + 1 && gs.clear.id == self->X->id && self->X->version == OLD(self->X->version) + 1
+                  && gs.copy.calls == OLD(gs.copy.calls) + 1 && gs.copy.idx == BAS_ID(B_R) && gs.copy.idy == self->B->id && self->B->version == OLD(self->B->version) + 1))
+__CPROVER_ensures(x_p->version == OLD(x_p->version) ==> (gs.clear.calls == OLD(gs.clear.calls) && self->X->version == OLD(self->X->version) && self->B->version == OLD(self->B->version)))
+{
+  const bl_params prm = self->prm;
+  hv Rt_h = HV(self->Rt), X_h = HV(self->X), B_h = HV(self->B), T_h = HV(self->T);
+  hv *const Rt = &Rt_h, *const X = &X_h, *const B = &B_h, *const T = &T_h;
+  const hv x = HV(x_p);
+  V rnmax_computed = rnmax_computed_in, rnmax_true = rnmax_true_in;     /* the locals of operator() the statement reads and writes */
+#define A (*A_p)
+#define P (*P_p)
+/*@CUT:consts@*/
+/*@CUT:rhead@*/
+  {
+/*@CUT:rbody@*/
+  }
+#undef A
+#undef P
+  return (rret){rnmax_computed, rnmax_true};
+}
+void h_f_refresh(void) { const bicgstabl *self; const mat *A; const precond *P; vec *x; V a, b, c, d; f_refresh(self, A, P, x, a, b, c, d); }
+"""
+bicgstabl_r = Unit(
+    name='solver_bicgstabl_refresh', props=['C01', 'C15', 'C10'],
+    functions=['solver::bicgstabl<Backend>::operator()(A, P, rhs, x) -- the statement if (prm.delta > 0) {...} (residual refresh / reliable update)'],
+    desc='BiCGStab(L), the residual refresh: R[0] = B - (P) A X through preconditioner::spmv; x advanced at most once, only together with a refresh, by the accumulated '
+         'correction (x += X left, x += T = P X right), after which X is cleared and B = R[0]: no part of the correction is applied twice; nothing else written',
+    cuts={'consts': Cut(BLHPP, r'static const coef_type one  = ', kind='region', end=r'ios_saver'),
+          'rhead': Cut(BLHPP, r'if \(prm\.delta > 0\)', kind='region', end=r'\{', rules=[BL_CMP]),
+          'rbody': Cut(BLHPP, r'if \(prm\.delta > 0\)\s*(?=\{)',
+                       rules=SIDE_RULES[1:] + [PSPMV_RULE] + basis_rules('R') + BL_TAIL, uf=[UF_ASSIGN_LV3])},
+    template=BL_R_T, enforce='f_refresh', replace=ORCH_H, mode='loopfree', obj_bits=12, timeout=300,
+    assumptions=BL_ASSUME[:1] + BL_ASSUME[1:2], not_decided=BL_NOT_DECIDED[:2],
 )
 
 # ---------------------------------------------------------------------------- make_solver (call level) and the 3-argument solver overloads
@@ -1304,6 +1375,6 @@ def overload3(name, src, sig):
 ov3_units = [overload3('fgmres', 'amgcl/solver/fgmres.hpp', SIG3G), overload3('lgmres', 'amgcl/solver/lgmres.hpp', SIG3G),
              overload3('idrs', 'amgcl/solver/idrs.hpp', SIG3G), overload3('bicgstabl', 'amgcl/solver/bicgstabl.hpp', SIG3)]
 
-UNITS = [fgmres, lgmres, idrs, idrs_k, bicgstabl, bicgstabl_j, bicgstabl_p, ms4, ms2, msapply] + ov3_units
+UNITS = [fgmres, lgmres, idrs, idrs_k, bicgstabl, bicgstabl_j, bicgstabl_p, bicgstabl_r, ms4, ms2, msapply] + ov3_units
 if _os.environ.get('VERIF_CANDIDATES'):
     UNITS += CANDIDATE_UNITS
